@@ -28,6 +28,14 @@ Definition modelled_sites : list string := [
   "cursor.go|Next|index|_[_]|!(_ >= len(_))";
   "cursor.go|PeekText|index|_[_]|!(_ < 0 || _ >= len(_))";
   "cursor.go|Peek|index|_[_]|!(_ >= len(_) || _ < 0)";
+  "defer.go|findDeferCallArgsStart|index|_[_]|for _ < _";
+  "defer.go|findDeferCallEnd|index|_[_]|for _ < _";
+  "defer.go|hoistDeferCallArguments|index|_[_]|!(_ >= len(_))";
+  "defer.go|hoistDeferCallArguments|make|make(T, 0, len(_)*2+1)|!(_ >= len(_) || _(_)) && !(_(1)._(_)) && !(len(_) == 0)";
+  "defer.go|hoistDeferReceiver|index|_[_]|!(_ >= len(_) || _(_)) && for _ < _";
+  "defer.go|hoistDeferReceiver|index|_[_]|!(_ >= len(_))";
+  "defer.go|hoistDeferReceiver|make|make(T, _-_)|!(_ < 0) && !(_ >= len(_) || _(_))";
+  "defer.go|hoistDeferReceiver|slice|_[_:_]|!(_ < 0) && !(_ >= len(_) || _(_))";
   "expr_atom.go|compileRuneExpression|index|_[0]|!(_() == _) && len(_) == 1 && len(_) > 1 && _[0] == '\'' && _[len(_)-1] == '\''";
   "expr_atom.go|compileRuneExpression|index|_[0]|!(_() == _) && len(_) > 1";
   "expr_atom.go|compileRuneExpression|index|_[_]|!(_() == _) && !(len(_) == 1) && _ && len(_) > 1 && _[0] == '\'' && _[len(_)-1] == '\'' && range _";
